@@ -34,6 +34,12 @@ def _variants(prop: str):
                         "rule": v.get("rule"), "source": "selftest"})
     for sd in sorted(glob.glob(os.path.join(VERIF, "seeded", f"{prop}-*"))):
         p = os.path.join(sd, "patch.diff")
+        try:
+            import json as _json
+            if _json.load(open(os.path.join(sd, "meta.json"))).get("obsolete"):
+                continue
+        except Exception:
+            pass
         if os.path.exists(p):
             out.append({"id": os.path.basename(sd), "patch": p, "expect": "fire", "rule": None,
                         "source": "seeded"})
